@@ -186,6 +186,78 @@ func c07Curves(ctx *Ctx) {
 	}
 }
 
+// c07History: the same curve object evaluated along a temperature history - slow drifts in steps below one
+// millidegree (the tail of the moving average), reversals, jumps. Whatever the order of the evaluations, of any two of
+// them the one at the higher temperature must not have the lower value.
+func c07History(ctx *Ctx) {
+	r := ctx.Rng
+	m := genMonotoneLinear(r, nil)
+	top, desc := m.curve, m.desc
+	kind := "linear"
+	if r.Intn(2) == 0 {
+		typ := pick(r, c07FnTypes...)
+		m2 := genMonotoneLinear(r, m.sensor)
+		top = mkCurve(configuration.CurveConfig{ID: uniqueId("fn"), Function: &configuration.FunctionCurveConfig{Type: typ, Curves: []string{m.curve.GetId(), m2.curve.GetId()}}})
+		desc = map[string]interface{}{typ: []interface{}{m.desc, m2.desc}}
+		kind = "function"
+	}
+	sort.Ints(m.bounds)
+	lo, hi := float64(m.bounds[0]-3)*1000, float64(m.bounds[len(m.bounds)-1]+3)*1000
+	t := lo + r.Float64()*(hi-lo)
+	type obs struct {
+		t float64
+		v int
+	}
+	var seen []obs
+	for phase := 0; phase < 12; phase++ {
+		step := pick(r, 0.3, 0.45, 0.9, 0.999, 1, 7, 250, 4000)
+		if r.Intn(2) == 0 {
+			step = -step
+		}
+		n := pick(r, 50, 400, 3000)
+		if step >= 250 || step <= -250 {
+			n = 20
+		}
+		for i := 0; i < n; i++ {
+			t += step
+			if t < lo || t > hi {
+				step = -step
+				t += 2 * step
+			}
+			m.sensor.Avg = t
+			var v int
+			var err error
+			panicked, msg := Guard(func() { v, err = top.Evaluate() })
+			ctx.Eval(1)
+			if panicked || err != nil {
+				ctx.Violation("curve-history:panic-or-error:"+kind, fmt.Sprintf("%s at %v: %v %s", jsonStr(desc), t, err, msg), desc)
+				return
+			}
+			seen = append(seen, obs{t, v})
+		}
+	}
+	order := make([]int, len(seen))
+	for i := range order {
+		order[i] = i
+	}
+	sort.SliceStable(order, func(a, b int) bool { return seen[order[a]].t < seen[order[b]].t })
+	rose := false
+	for k := 1; k < len(order); k++ {
+		a, b := seen[order[k-1]], seen[order[k]]
+		if b.v < a.v {
+			ctx.Violation("hotter-means-slower:within-a-history:"+kind, fmt.Sprintf("%s: evaluation no. %d gave %d at %.4f degrees, evaluation no. %d gave %d at %.4f degrees", jsonStr(desc), order[k-1], a.v, a.t/1000, order[k], b.v, b.t/1000),
+				map[string]interface{}{"curve": desc})
+			return
+		}
+		if b.v > a.v {
+			rose = true
+		}
+	}
+	if rose {
+		ctx.Nontrivial("history:" + kind + "|" + hash64(jsonStr(desc)))
+	}
+}
+
 // controller part: curve value -> (request, written) non-decreasing with the direct algorithm
 func c07Controller(ctx *Ctx) {
 	r := ctx.Rng
@@ -274,6 +346,8 @@ func init() {
 		for k := 0; k < n; k++ {
 			if k%4 == 3 {
 				c07Controller(ctx)
+			} else if k%16 == 5 {
+				c07History(ctx)
 			} else {
 				c07Curves(ctx)
 			}
